@@ -7,7 +7,7 @@
 (* are left alone; $0, missing and unused arguments are errors.                *)
 EXTENDS Lexers, Json
 
-CONSTANTS MaxLen, Alphabet, TemplateIds
+CONSTANTS MaxLen, Alphabet, TemplateIds, HistLen
 
 VARIABLES cs, out, pc
 vars == <<cs, out, pc>>
@@ -19,6 +19,15 @@ T(id) == CASE id = 1 -> <<83,69,76,69,67,84,32,36,49,32,65,83,32,118,32,70,82,79
                         \* SELECT $1 AS v, '$1 -- x' AS l, a AS `c$1` FROM t /* $1 */ # $1 <newline> WHERE a = $2
            [] id = 4 -> <<83,69,76,69,67,84,32,39,105,116,92,39,115,32,36,49,39,32,65,83,32,113,44,32,36,49,32,65,83,32,118,32,70,82,79,77,32,100,117,97,108>>   \* SELECT 'it\'s $1' AS q, $1 AS v FROM dual
            [] id = 5 -> <<83,69,76,69,67,84,32,36,49,32,65,83,32,97,44,32,36,50,32,65,83,32,98,32,70,82,79,77,32,100,117,97,108,32,45,45,32,36,49>>              \* SELECT $1 AS a, $2 AS b FROM dual -- $1
+           [] id = 7 -> <<83,69,76,69,67,84,32,36,49,32,65,83,32,97,32,70,82,79,77,32,100,117,97,108,32,45,45,9,36,49>>      \* SELECT $1 AS a FROM dual --<TAB>$1
+           [] id = 8 -> <<83,69,76,69,67,84,32,36,49,32,65,83,32,97,32,70,82,79,77,32,100,117,97,108,32,45,45,10,32,87,72,69,82,69,32,49,32,61,32,49,32,45,45,13,36,49>>      \* ... --<LF> WHERE 1 = 1 --<CR>$1
+           \* templates that leave the lexer in the middle of something (used as the earlier call of a history)
+           [] id = 20 -> <<83,69,76,69,67,84,32,49,32,47,42,32,107,101,121,115,58,32,117,115,101,114,47,42,32,97,110,100,32,103,114,111,117,112,47,42,32,42,47,32,70,82,79,77,32,100,117,97,108>>
+           [] id = 21 -> <<83,69,76,69,67,84,32,49,32,47,42,32,47,42>>
+           [] id = 22 -> <<83,69,76,69,67,84,32,39,97,98,99>>
+           [] id = 23 -> <<83,69,76,69,67,84,32,96,97,98,99>>
+           [] id = 24 -> <<83,69,76,69,67,84,32,49,32,45,45,32,36,49>>
+           [] id = 25 -> <<83,69,76,69,67,84,32,69,39,97,92>>
            [] OTHER  -> <<83,69,76,69,67,84,32,36,48,32,70,82,79,77,32,100,117,97,108>>                                                    \* SELECT $0 FROM dual
 NArgs(id) == CASE id \in {3, 5} -> 2 [] OTHER -> 1
 
@@ -27,8 +36,14 @@ Str(c) == [t |-> "s", c |-> c]
 Lit(c) == [t |-> "lit", c |-> c]
 Second == Lit(<<55>>)      \* the second argument where a template has two: the number 7
 
-Init == /\ \E id \in TemplateIds : \E s \in Strs :
-               cs = [tpl |-> id, args |-> IF NArgs(id) = 2 THEN <<Str(s), Second>> ELSE <<Str(s)>>, nargs |-> "exact"]
+\* histories: SanitizeSQL is a function of (template, arguments) - an earlier call, whatever state its
+\* lexer ended in, must not show in a later one
+Befores == {20, 21, 22, 23, 24, 25}
+HistStrs == UNION {[1..n -> Alphabet] : n \in 0..HistLen}
+Init == /\ \/ \E id \in TemplateIds : \E s \in Strs :
+                 cs = [tpl |-> id, args |-> IF NArgs(id) = 2 THEN <<Str(s), Second>> ELSE <<Str(s)>>, before |-> 0]
+           \/ \E id \in {1, 3, 5, 7} : \E b \in Befores : \E s \in HistStrs :
+                 cs = [tpl |-> id, args |-> IF NArgs(id) = 2 THEN <<Str(s), Second>> ELSE <<Str(s)>>, before |-> b]
         /\ out = <<>> /\ pc = "start"
 Run == pc = "start" /\ out' = Sanitize(T(cs.tpl), cs.args) /\ pc' = "done" /\ UNCHANGED cs
 Next == Run
@@ -59,5 +74,7 @@ ArityLaw == /\ Sanitize(T(1), <<>>) = SanErr
 \* QuoteString followed by the tokenizer's string scanning is the identity
 RoundTrip == Done => LET r == MyString(QuoteString(Arg1), 2, SQ, <<>>) IN r.ok /\ r.c = Arg1 /\ r.p = Len(QuoteString(Arg1)) + 1
 
-Export == Done => PrintT(ToJson([tpl |-> T(cs.tpl), id |-> cs.tpl, args |-> cs.args, out |-> out]))
+Export == Done => PrintT(ToJson([tpl |-> T(cs.tpl), id |-> cs.tpl, args |-> cs.args, out |-> out,
+                                 before |-> IF cs.before = 0 THEN <<>> ELSE T(cs.before),
+                                 outbefore |-> IF cs.before = 0 THEN <<>> ELSE Sanitize(T(cs.before), <<Str(<<88>>)>>)]))
 =============================================================================
